@@ -217,3 +217,29 @@ def run_depth(ctx, rep, rid="R-C04-depth"):
                     r.finding("rule %s|loop boxes `%s`|depth = repetitions" % (m.group(1) if m else norm(b.id), b.local_name(l)), loc_str(b.f, c.loc),
                               "each element of the repetition wraps the value built so far in a Box: `x.a.a.a ..` nests once per selector; 3000 selectors (6 KB) "
                               "overflow the stack of the debug build in check (abort, exit 134)")
+
+
+def run_threads(ctx, rep, rid="R-C04-threads"):
+    """The stack budget of this code base is the main thread's: all the recursive traversals were written (and are only ever exercised)
+    there.  A spawned thread gets Rust's default 2 MiB instead of the main thread's 8 MiB, so moving parsing or analysis onto a worker
+    thread quarters the expression length that can be handled before the process aborts.  Product code spawns no threads today."""
+    r = rep.rule(rid, "no product code runs parsing/analysis on a spawned thread (std::thread::spawn / scope / Builder): the recursive traversals have "
+                      "only the main thread's stack to count on", floor=1000, floor_what="calls scanned in product code")
+    n = 0
+    found = 0
+    for b in sorted(ctx.prog.bodies.values(), key=lambda x: x.id):
+        if b.f["crate"] not in F.PRODUCT or "::test" in norm(b.id):
+            continue
+        k = 0
+        for c in sorted(b.calls(), key=lambda c: (c.loc[0], c.loc[1])):
+            n += 1
+            cal = c.callee or c.u or ""
+            if re.search(r"std::thread::(spawn|scope|Builder|scoped::Scope|scoped::scope)|rayon::|crossbeam_utils::thread|tokio::(spawn|task)", cal):
+                k += 1
+                found += 1
+                r.finding("%s|%s#%d" % (norm(b.id), cal.split("::")[-1], k), loc_str(b.f, c.loc),
+                          "%s: work is moved to a thread with the default 2 MiB stack; the recursive traversals (one frame group per operator of a chain) abort "
+                          "at a quarter of the length they survive on the main thread" % cal[:80])
+    if not found:
+        r.ok("product code|no thread is spawned", None, "%d calls scanned" % n)
+    r.count_override = n
